@@ -39,7 +39,7 @@ class C20(Prop):
     level_note = 'Trusted: Lean kernel + standard axioms; Rx 3.2 / ReactiveX 4 operator internals; the delegation theorem is a table and says so.'
     design_ref = '§5 C20'
     rule = ('both Rx versions x interaction (stream, channel inbound, response, fire-and-forget, metadata-push, setup) x element count 0/1/many x request limit 1..max x error position (streams; response observables that fail at once, after their element, or later) x '
-            'disposal moment x delivery pacing by the harness; non-trivial = more elements than the request limit, an error, a disposal or a one-way request through the handler adapter; '
+            'disposal moment x delivery pacing by the harness; a CANCEL from the requester while the delegate\'s source (back-pressure factory over a gated async generator, or a Subject) has credit outstanding and more to give; non-trivial = more elements than the request limit, an error, a disposal or a one-way request through the handler adapter; '
             'distinct = distinct case')
     assumptions = []
 
@@ -48,7 +48,7 @@ class C20(Prop):
         n = 600 if tier == 'quick' else 8000
         for _ in range(n):
             ver = rng.choice(['rx3', 'rx4'])
-            k = rng.choice(['cstream', 'cstream', 'cstream', 'cresp', 'coneway', 'hstream', 'hstream', 'honeway', 'hresp', 'hchannel'])
+            k = rng.choice(['cstream', 'cstream', 'cstream', 'cresp', 'coneway', 'hstream', 'hstream', 'honeway', 'hresp', 'hchannel', 'hcancel'])
             c = {'ver': ver, 'kind': k}
             if k == 'cstream':
                 count = rng.choice([0, 1, 2, 5, 9])
@@ -64,6 +64,9 @@ class C20(Prop):
                          more=[rng.choice([1, 2, 3]) for _ in range(rng.randint(0, 4))], together=rng.random() < 0.35)
                 if c['factory'] and rng.random() < 0.5:
                     c['error_at'] = None
+            elif k == 'hcancel':
+                # the requester cancels a stream served through the handler adapter while credit is outstanding and the delegate's source has more
+                c.update(source=rng.choice(['factory', 'factory', 'subject']), n0=rng.choice([3, 10, 2 ** 31 - 1]), before=rng.choice([0, 1, 3]), after=rng.choice([1, 4]))
             elif k == 'honeway':
                 c.update(op=rng.choice(['fnf', 'mp', 'setup']))
             elif k == 'hresp':
@@ -329,6 +332,57 @@ class C20(Prop):
         await server.close()
         return res
 
+    async def _hcancel(self, loop, case):
+        import asyncio
+        from rsocket.payload import Payload
+        from rsocket import frame as F
+        L = libs(case['ver'])
+        Subject = L[2]
+        gate = asyncio.Queue()
+        yielded = []
+        subject = Subject()
+
+        async def agen():
+            i = 0
+            while True:
+                await gate.get()          # the delegate's source produces an element only when the harness lets it
+                i += 1
+                yielded.append(i)
+                yield Payload(bytes([i]))
+
+        class D(L[4]):
+            async def request_stream(self, payload):
+                if case['source'] == 'factory':
+                    return L[7](lambda backpressure: L[8](agen().__aiter__(), backpressure))
+                return subject
+        t, server = await self._server(loop, case, D)
+        t.deliver(engine.build_frame({'ty': 'REQUEST_STREAM', 'sid': 1, 'n': case['n0'], 'data': [3]}).serialize())
+        await loop.settle()
+
+        def produce(k):
+            for j in range(k):
+                if case['source'] == 'factory':
+                    gate.put_nowait(1)
+                else:
+                    yielded.append(len(yielded) + 1)
+                    subject.on_next(Payload(bytes([len(yielded)])))
+
+        def payloads():
+            return len([e for e in t.sent if isinstance(e[2], F.PayloadFrame) and e[2].stream_id == 1])
+        produce(case['before'])
+        await loop.settle()
+        sent_before, yielded_before = payloads(), len(yielded)
+        t.deliver(engine.build_frame({'ty': 'CANCEL', 'sid': 1}).serialize())
+        await loop.settle()
+        produce(case['after'])
+        await loop.settle()
+        await loop.advance(50)
+        res = {'sent_before': sent_before, 'sent_after_cancel': payloads() - sent_before, 'yielded_before': yielded_before,
+               'yielded_after_cancel': (len(yielded) - yielded_before) if case['source'] == 'factory' else 0,
+               'errors': [engine.simnet_tok(e) for e in t.sent if isinstance(e[2], F.ErrorFrame)]}
+        await server.close()
+        return res
+
     async def _hchannel(self, loop, case):
         from rsocket import frame as F
         L = libs(case['ver'])
@@ -459,6 +513,14 @@ class C20(Prop):
                 add('delegate-not-reached:' + case['op'], 'the %s reached the delegate as %s (wire: %s)' % (case['op'], obs['calls'], obs['wire'][:2]))
             if any(w.startswith('ERROR') for w in obs['wire']):
                 add('one-way-request-answered-with-error:' + case['op'], str(obs['wire'][:2]))
+        elif k == 'hcancel':
+            how = '%s source behind the %s handler adapter, %d elements before the CANCEL, %d offered after it, initial request-n %d' % (case['source'], case['ver'], case['before'], case['after'], case['n0'])
+            if obs['sent_after_cancel']:
+                add('handler-elements-after-cancel', '%s: %d PAYLOAD frames reached the wire after the CANCEL was processed' % (how, obs['sent_after_cancel']))
+            if obs['yielded_after_cancel']:
+                add('handler-source-pulled-after-cancel', '%s: the delegate\'s generator was advanced %d more times after the CANCEL' % (how, obs['yielded_after_cancel']))
+            if obs['errors']:
+                add('handler-cancel-answered-with-error', '%s: %s' % (how, obs['errors']))
         elif k == 'hresp':
             want = 'S:PAYLOAD:1:01%s0:0:0:%s' % ('1' if case['data'] else '0', ','.join(str(b) for b in bytes.fromhex(case['data'])) or '-')
             if 'error' in case.get('shape', 'plain'):
@@ -514,7 +576,7 @@ class C20(Prop):
         k = case['kind']
         if k == 'cstream' and (case['count'] > case['limit'] or case['end'] == 'error' or case['dispose_after'] is not None):
             return json.dumps(case, sort_keys=True)
-        if k in ('honeway', 'hstream', 'hchannel', 'hresp', 'cresp'):
+        if k in ('honeway', 'hstream', 'hchannel', 'hresp', 'cresp', 'hcancel'):
             return json.dumps(case, sort_keys=True)
         return None
 
